@@ -58,12 +58,13 @@ ENGINES = {
         'avel_tus': [('mem_ops.cpp', ['-DMEM_PART=%d' % k], 'mem_ops_%d.o' % k) for k in range(11)],
         'link': ['-Wl,-z,now', '-pthread'],
         'configs': C.vector_configs,
+        'configs_by_prop': {'C20': C.prefetch_configs},
         'seeded_runs': {'quick': 100000, 'thorough': 10000000},
         'gate_n': {'quick': 200, 'thorough': 5000},
         'required_probes': {'C08': ['n0_calls', 'vector_misaligned_pointer', 'gather_scatter_with_wild_inactive_indices', 'scatter_duplicate_active_indices'],
                             'C09': ['partial_store_flush_against_inaccessible_page', 'partial_load_flush_against_inaccessible_page', 'range_starts_right_after_inaccessible_page',
                                     'n0_calls', 'gather_scatter_with_wild_inactive_indices', 'exhaustive_k_sweeps'],
-                            'C20': ['prefetch_range_touches_inaccessible_memory', 'prefetch_null_pointer', 'prefetch_n0']},
+                            'C20': ['prefetch_range_touches_inaccessible_memory', 'prefetch_null_pointer', 'prefetch_n0', 'prefetch_stream_continues_into_inaccessible_page']},
         'required_faults_by_prop': {'C08': ['stale_stack_and_register_poison'], 'C09': ['page_N_adjacent', 'page_R_adjacent', 'page_H_adjacent', 'watch_windows_armed', 'neighbour_write_at_instruction_k', 'stale_stack_and_register_poison'],
                                     'C20': ['neighbour_write_at_instruction_k']},
         'required_faults': [],
@@ -361,7 +362,7 @@ def main():
     if args.replay:
         return do_replay(args, engine, common)
 
-    cfgs = E['configs'](args.tier, args.seed)
+    cfgs = E.get('configs_by_prop', {}).get(prop, E['configs'])(args.tier, args.seed)
     if args.configs:
         pats = args.configs.split(',')
         cfgs = [c for c in cfgs if any(fnmatch.fnmatchcase(c['id'], p) for p in pats)]
@@ -418,14 +419,24 @@ def main():
         hb = {}
         for g in gb:
             hb.update(dict(parse_lines(g[1]).get('H', [])))
+        gate_problem = None
         if ha != hb or len(ha) != gate_n:
             diff = [i for i in sorted(set(ha) | set(hb)) if ha.get(i) != hb.get(i)][:5]
-            harness_problems.append('nondeterministic harness on %s: run indices %s differ between two executions (%d vs %d hashes)' % (c['id'], diff, len(ha), len(hb)))
-            continue
-        agg['gate_pairs'] += gate_n
+            gate_problem = 'nondeterministic harness on %s: run indices %s differ between two executions with different worker partitions (%d vs %d hashes)' % (c['id'], diff, len(ha), len(hb))
+            # Same partition twice: if THAT differs the harness itself is nondeterministic -> stop here.  If it is stable, runs depend on
+            # the preceding runs of their worker (state kept across calls).  The batch continues; the problem is dropped only if a
+            # confirmed violation of the property on this configuration explains it, otherwise it stands (exit 2).
+            ga2 = run_worker(binp, ['--gen', '--prop', prop, '--tier', args.tier, '--seed', str(args.seed), '--no-sweep', '--count', str(gate_n), '--hashes'], 600)
+            if dict(parse_lines(ga2[1]).get('H', [])) != ha:
+                harness_problems.append(gate_problem + ' (and the same partition executed twice differs as well)')
+                continue
+        else:
+            agg['gate_pairs'] += gate_n
+        n_viol_before = len(violations_out)
 
         # ---- main batch: NCPU workers, strided
         base = ['--gen', '--prop', prop, '--tier', args.tier, '--seed', str(args.seed), '--count', str(nruns_cfg), '--stride', str(NCPU), '--samples', '2']
+        xenv = None
         with cf.ThreadPoolExecutor(max_workers=NCPU) as ex:
             xenv = {'VERIF_EXHAUSTIVE': '1'} if (args.tier == 'thorough' and engine == 'fenv' and prop == 'C11' and any(fnmatch.fnmatchcase(c['id'], p_) for p_ in EXHAUSTIVE_CFGS)) else None
             res = list(ex.map(lambda s: run_worker(binp, base + ['--start', str(s)], 14400, xenv), range(NCPU)))
@@ -469,6 +480,23 @@ def main():
             ok = (r1['violation'] is not None and r2['violation'] is not None and r1['log_hash'] == r2['log_hash']
                   and sigkey(r1['violation']) == sigkey(v) == sigkey(r2['violation']))
             if not ok:
+                # The single plan does not reproduce in a fresh process.  Before calling that a harness defect, check whether the
+                # violation is a function of the worker's whole HISTORY (state the library itself keeps across calls, e.g. a
+                # static or thread_local introduced by a change): re-execute that worker's run sequence up to this run, twice.
+                hargs = base + ['--start', str(v['run'] % NCPU), '--until', str(v['run'])]
+                hv = []
+                for _ in range(2):
+                    rc_, out_, err_ = run_worker(binp, hargs, 7200, xenv)
+                    hv.append([x for x in parse_lines(out_).get('V', []) if x['run'] == v['run']])
+                if hv[0] and hv[1] and sigkey(hv[0][0]) == sigkey(hv[1][0]) == sigkey(v) and hv[0][0]['log_hash'] == hv[1][0]['log_hash']:
+                    gkey = sigkey(v)
+                    if gkey in global_sigs:
+                        global_sigs[gkey]['also_on'].append(c['id']); continue
+                    rp = write_replay(prop, c, v['plan'], v, [], rev, args, kind='history', worker_args=hargs,
+                                      note='the violating plan reproduces only after the preceding runs of the same worker process: the library keeps state across calls')
+                    ent = {'also_on': []}; global_sigs[gkey] = ent
+                    violations_out.append((prop, rp, '%s on %s (history-dependent: reproduces only after the worker\'s preceding runs): %s' % (v['sig'], c['id'], v['detail'][:300]), ent))
+                    continue
                 harness_problems.append('violation does not replay deterministically on %s: sig=%s run=%s hashes=%s/%s errs=%s/%s' % (
                     c['id'], v['sig'], v['run'], r1['log_hash'], r2['log_hash'], r1['harness_error'], r2['harness_error']))
                 continue
@@ -483,6 +511,11 @@ def main():
             rp = write_replay(prop, c, small, vv, rf['log'], rev, args, shrink_runs=tries, orig_steps=len(v['plan']) - 1)
             ent = {'also_on': []}; global_sigs[gkey] = ent
             violations_out.append((prop, rp, '%s on %s: %s' % (vv['sig'], c['id'], vv['detail'][:300]), ent))
+        if gate_problem:
+            if len(violations_out) > n_viol_before:
+                print('[check] %s: runs depend on the preceding runs of their worker (cross-run state); explained by the confirmed violation(s) above' % c['id'])
+            else:
+                harness_problems.append(gate_problem)
         print('[check] %s: %.1fs, %d distinct violating signatures for %s' % (c['id'], time.time() - tc, len(mine), prop)); sys.stdout.flush()
 
     # ---- required probes (a vacuous batch is not a pass)
@@ -550,6 +583,12 @@ def do_replay(args, engine, common):
         print('[replay] configuration builds now; violation not reproduced'); return 0
     if binp is None:
         print('HARNESS-PROBLEM: configuration does not build:\n' + log[-2000:]); return 2
+    if body.get('kind') == 'history':
+        rc_, out_, err_ = run_worker(binp, body['worker_args'], 7200)
+        hv = [x for x in parse_lines(out_).get('V', []) if x['sig'] == body['expect']['signature']]
+        if hv:
+            print('VIOLATION property=%s replay=%s' % (prop, args.replay)); print('  reproduced after the recorded history: %s %s' % (hv[-1]['sig'], hv[-1]['detail'])); return 1
+        print('[replay] history executed, violation not reproduced'); return 0
     r1 = exec_plan(binp, prop, body.get('tier', 'quick'), body['plan'])
     r2 = exec_plan(binp, prop, body.get('tier', 'quick'), body['plan'])
     for l in r1['log']:
